@@ -65,12 +65,12 @@ func main() {
 			}
 			release = make(chan struct{})
 			done = make(chan resp, 1)
-			inside := make(chan struct{}, 1)
+			inside := make(chan bool, 1) // true: parked inside the callback, holding the read lock
 			go func(path string, release chan struct{}) {
 				db, err := sqlittle.Open(path)
 				if err != nil {
-					inside <- struct{}{}
 					done <- resp{Err: err.Error()}
+					inside <- false
 					return
 				}
 				n := 0
@@ -79,22 +79,29 @@ func main() {
 					n++
 					if first {
 						first = false
-						inside <- struct{}{}
+						inside <- true
 						<-release
 					}
 				}, "a")
-				if first {
-					inside <- struct{}{}
-				}
 				db.Close()
 				r := resp{Rows: n}
 				if err != nil {
 					r.Err = err.Error()
 				}
 				done <- r
+				if first {
+					// the select ended without a row (empty table, or an
+					// error such as a hot journal): nothing is held
+					inside <- false
+				}
 			}(q.Path, release)
-			<-inside
-			reply(resp{Held: true})
+			if <-inside {
+				reply(resp{Held: true})
+			} else {
+				r := <-done
+				release, done = nil, nil
+				reply(r)
+			}
 		case "release":
 			if release == nil {
 				reply(resp{Err: "not holding"})
